@@ -29,6 +29,10 @@ func (d *DeterministicSampler) Start() error {
 	d.Logger.Debug().Logf("Starting DeterministicSampler")
 	defer func() { d.Logger.Debug().Logf("Finished starting DeterministicSampler") }()
 	d.sampleRate = d.Config.SampleRate
+	if d.sampleRate < 1 {
+		// a rate of 1 or less keeps everything; avoid dividing by zero below
+		d.sampleRate = 1
+	}
 	if d.Metrics == nil {
 		d.Metrics = &metrics.NullMetrics{}
 	}
